@@ -53,8 +53,9 @@ def lname(n, style=0):
     return t.format(n=n) if "{n}" in t else t + "_" * n
 
 
-def to_proto(src, macros=None, incremental=False) -> ProtoSubroutine:
+def to_proto(src, macros=None, incremental=False, shared=None) -> ProtoSubroutine:
     cmds = []
+    pool = shared        # a dict: commands with equal operands are given the SAME Python list (also across calls)
     for it in src:
         if it["t"] == "label":
             cmds.append(BranchLabel(f"L{it['n']}"))
@@ -77,6 +78,8 @@ def to_proto(src, macros=None, incremental=False) -> ProtoSubroutine:
             elif g == "slice":
                 a, s, e = flat.pop(0), flat.pop(0), flat.pop(0)
                 ops.append(ArraySlice(Address(a["v"]), val(s), val(e)))
+        if pool is not None and not any(isinstance(o, (ArrayEntry, ArraySlice)) for o in ops):
+            ops = pool.setdefault(SHAPE[it["mn"]] + json.dumps(it["ops"], sort_keys=True), ops)      # (same operand kinds, same values)
         cmds.append(ICmd(instruction=GenericInstr[it["mn"].upper()], operands=ops))
     if incremental and len(cmds) >= 2:
         # the IR is built in steps: the object exists first, commands are added to its list afterwards (front and back)
@@ -227,6 +230,14 @@ def assemble_all(src, rng, mode) -> List[Tuple[str, Any, str]]:
         out.append(("ir-built-in-steps", [dict(zip(("mn", "ops"), isa.flatten(i))) for i in sub.instructions], ""))
     except Exception as ex:
         out.append(("ir-built-in-steps", None, f"{type(ex).__name__}: {ex}"[:160]))
+    try:
+        # two commands written from one operand list (and the same program assembled from those lists a second time)
+        pool_: Dict[str, list] = {}
+        assemble_subroutine(to_proto(src, shared=pool_))
+        sub = assemble_subroutine(to_proto(src, shared=pool_))
+        out.append(("ir-shared-operand-lists", [dict(zip(("mn", "ops"), isa.flatten(i))) for i in sub.instructions], ""))
+    except Exception as ex:
+        out.append(("ir-shared-operand-lists", None, f"{type(ex).__name__}: {ex}"[:160]))
     if any(it["t"] == "label" for it in src):
         ls = 1 + rng.randrange(len(LABEL_STYLES) - 1)
         try:
